@@ -673,6 +673,9 @@ func (uconn *UConn) MarshalClientHelloNoECH() error {
 	if extensionsLen > 0xffff {
 		return errors.New("utls: extensions do not fit the 16-bit extensions length of a ClientHello")
 	}
+	if len(hello.CipherSuites) > 0x7fff || len(hello.CompressionMethods) > 0xff || len(hello.SessionId) > 0xff {
+		return errors.New("utls: cipher suites, compression methods or session id do not fit their length prefix")
+	}
 
 	helloLen := headerLength
 	if len(uconn.Extensions) > 0 {
